@@ -124,13 +124,13 @@ def run_case(case):
         def on_write(conn, side, data):
             if side != "s" or conn.port != 2121:
                 return
-            events.append((world.loop.steps, "w", conn.id, bytes(data[:80])))
+            events.append((world.loop.steps, "w", conn.id, bytes(data[:80]), world.loop.time()))
 
         world.net.write_taps.append(on_write)
 
         def observer(seq, kind, conn, side, n):
             if kind == "accept" and conn is not None and conn.port == 2121:
-                events.append((world.loop.steps, "accept", conn.id, None))
+                events.append((world.loop.steps, "accept", conn.id, None, world.loop.time()))
 
         world.net.observers.append(observer)
 
@@ -309,11 +309,11 @@ def run_case(case):
         info["sessions_closed"] = sum(1 for t_ in closes.values() if t_.closed_at is not None)
         close_at_step = {cid: getattr(t_, "closed_step", None) for cid, t_ in closes.items()}
         merged = []
-        for (step, kind, cid, data) in events:
-            merged.append((step, 1, kind, cid, data))
+        for (step, kind, cid, data, vt) in events:
+            merged.append((step, 1, kind, cid, data, vt))
         for cid, st in close_at_step.items():
             if st is not None:
-                merged.append((st, 0, "closed", cid, None))
+                merged.append((st, 0, "closed", cid, None, closes[cid].closed_at))
         merged.sort(key=lambda x: (x[0], x[1]))
         open_ctl = set()
         max_admitted = 0
@@ -328,13 +328,19 @@ def run_case(case):
             sent_users[cid] = [t[2][5:] for t in p.transcript if t[1] == "C" and t[2].upper().startswith("USER ")]
         user_idx = {cid: 0 for cid in sent_users}
         limits_by_name = {u["login"]: u["maximum_connections"] for u in users_spec}
-        for (step, _o, kind, cid, data) in merged:
+        just_closed = []  # (vtime, user key) of sessions whose control transport was closed: their
+        # slots are returned a few loop iterations later (same virtual instant), so a refusal at
+        # that very instant is legitimate
+        just_closed_ctl = []
+        for (step, _o, kind, cid, data, vt) in merged:
             if kind == "accept":
                 open_ctl.add(cid)
             elif kind == "closed":
                 open_ctl.discard(cid)
                 admitted.pop(cid, None)
-                attached.pop(cid, None)
+                just_closed_ctl.append(vt)
+                if cid in attached:
+                    just_closed.append((vt, attached.pop(cid)))
             elif kind == "w":
                 if data.startswith(b"220"):
                     admitted[cid] = True
@@ -342,7 +348,7 @@ def run_case(case):
                         viol.append({"clause": "server-limit-exceeded", "subject": f"limit={limit}", "detail": f"{len(admitted)} sessions admitted concurrently (limit {limit})"})
                     max_admitted = max(max_admitted, len(admitted))
                 elif data.startswith(b"421 Too many"):
-                    others = len(open_ctl - {cid})
+                    others = len(open_ctl - {cid}) + sum(1 for t0 in just_closed_ctl if t0 >= vt - 1e-9)
                     if limit is None or others < limit:
                         viol.append({"clause": "refused-below-server-limit", "subject": f"limit={limit}", "detail": f"421 although only {others} other control connections were open (limit {limit})"})
                 elif data[:3] in (b"230", b"331", b"530") and cid in sent_users:
@@ -364,7 +370,7 @@ def run_case(case):
                             viol.append({"clause": "user-limit-exceeded", "subject": f"{key}:max={mx}", "detail": f"{cnt} sessions attached to user {key} concurrently (limit {mx})"})
                     elif "too much connections" in txt:
                         key = name if name in limits_by_name else None
-                        cnt = sum(1 for v in attached.values() if v == key)
+                        cnt = sum(1 for v in attached.values() if v == key) + sum(1 for (t0, k0) in just_closed if k0 == key and t0 >= vt - 1e-9)
                         mx = limits_by_name.get(key)
                         if mx is None or cnt < mx:
                             viol.append({"clause": "refused-below-user-limit", "subject": f"{key}:max={mx}", "detail": f"530 too much connections for {key} although only {cnt} sessions were attached (limit {mx})"})
